@@ -119,6 +119,8 @@ def build_facts(scope="lib", repo=REPO, use_cache=True):
         dt = time.time() - t0
         if r.returncode != 0:
             shutil.rmtree(fdir, ignore_errors=True)
+            if "psa_extract" in r.stdout or "psa-extract: " in r.stdout or "the compiler unexpectedly panicked" in r.stdout:
+                raise EngineError("the fact extractor crashed:\n" + r.stdout[-3000:])
             raise BuildError(r.stdout[-6000:])
         names = os.listdir(fdir)
         for c in LIB_CRATES:
@@ -216,10 +218,18 @@ class Facts:
         raise EngineError("no facts for crate " + name)
 
     def all_fns(self, include_tests=True):
+        """every function of every analysed crate once: for test builds of a crate that is also present as a
+        normal build only the additional (test-only) functions are yielded"""
+        normal = {}
+        for c in self.crates:
+            if not c.is_test:
+                normal.setdefault(c.name, set()).update(c.fns.keys())
         for c in self.crates:
             if c.is_test and not include_tests:
                 continue
             for p, fl in c.fns.items():
+                if c.is_test and p in normal.get(c.name, ()):
+                    continue
                 for f in fl:
                     yield c, f
 
